@@ -102,7 +102,7 @@ class Leg:
                             remap[e["t"]] = nxt
                         e["t"] = remap[e["t"]]
                         o.write(json.dumps(e) + "\n")
-                for i in json.load(open(p + ".idx.json")):
+                for i in (json.load(open(p + ".idx.json")) or []):
                     if i["t"] in remap:
                         i["t"] = remap[i["t"]]
                         infos.append(i)
@@ -173,7 +173,7 @@ def _run(prop, reg, tier, seed, work, known, t0, replay):
         tf = leg.drive(binary, only=only)
         tv, rej, invf = leg.validate(tf)
         traces = core.load_traces(tf)
-        infos = {i["t"]: i for i in json.load(open(tf + ".idx.json"))}
+        infos = {i["t"]: i for i in (json.load(open(tf + ".idx.json")) or [])}
         total_traces += tv["traces"]
         evaluations += tv["traces"]
         tv_states += tv.get("distinct", 0)
@@ -211,7 +211,7 @@ def _run(prop, reg, tier, seed, work, known, t0, replay):
                 tf2 = leg.drive(binary, only=idxs, tag="repro")
                 tv2, rej2, invf2 = leg.validate(tf2)
                 traces2 = core.load_traces(tf2)
-                infos2 = {i["t"]: i for i in json.load(open(tf2 + ".idx.json"))}
+                infos2 = {i["t"]: i for i in (json.load(open(tf2 + ".idx.json")) or [])}
                 sigs2 = {}
                 for r in rej2:
                     s2 = signature(prop, traces2[r["t"]], r, invf2)
